@@ -528,7 +528,80 @@ func c04Challenge(p *Prog, r *Report, R1 string) {
 		want := map[string]string{
 			"TokenType":  out(0),
 			"IssuerName": out(1),
-			"OriginInfo": "call<strings.Split>(" + out(3) + ", lit:\",\")",
+		}
+		// OriginInfo: the writer joins with ","; strings.Split inverts the join
+		// for every non-empty list, but Split("") is one empty element, not the
+		// empty list - so the split must be applied to a non-empty field only,
+		// and an empty field must leave the list empty
+		{
+			splitT := "call<strings.Split>(" + out(3) + ", lit:\",\")"
+			var split *ssa.Call
+			nStores := 0
+			for _, b := range fn.Blocks {
+				for _, in := range b.Instrs {
+					st, ok := in.(*ssa.Store)
+					if !ok {
+						continue
+					}
+					fa, ok := st.Addr.(*ssa.FieldAddr)
+					if !ok || fieldName(deref(fa.X.Type()), fa.Field) != "OriginInfo" {
+						continue
+					}
+					nStores++
+					if c, ok := st.Val.(*ssa.Call); ok && s.Of(c).String() == splitT {
+						split = c
+					}
+					// or: a local that is the split on one path and still nil on the other
+					if ph, ok := st.Val.(*ssa.Phi); ok {
+						var cand *ssa.Call
+						okPhi := true
+						for _, e := range ph.Edges {
+							if c, ok := e.(*ssa.Call); ok && s.Of(c).String() == splitT && cand == nil {
+								cand = c
+							} else if !isNilConst(e) {
+								okPhi = false
+							}
+						}
+						if okPhi && cand != nil {
+							split = cand
+						}
+					}
+				}
+			}
+			switch {
+			case split == nil || nStores != 1:
+				r.Fail(R1, name+": decoded .OriginInfo comes from the bytes read", p.Pos(rp.Ret.Pos()), fmt.Sprintf("%d stores to .OriginInfo, none (or not only) strings.Split(origin field, \",\"): required %s", nStores, clip(splitT, 300)))
+			default:
+				r.OK(R1, name+": decoded .OriginInfo comes from the bytes read", p.InstrPos(split), "strings.Split(origin field, \",\")")
+				nonEmpty := false
+				for _, a := range s.ff.At(split.Block()) {
+					if a.Kind != Truth {
+						continue
+					}
+					switch x := a.V.(type) {
+					case *ssa.BinOp:
+						xt, yt := s.Of(x.X).String(), s.Of(x.Y).String()
+						ln := "len(" + out(3) + ")"
+						switch {
+						case xt == ln && yt == "const:0":
+							nonEmpty = nonEmpty || (x.Op == token.GTR && a.Pol) || (x.Op == token.NEQ && a.Pol) || (x.Op == token.EQL && !a.Pol) || (x.Op == token.LEQ && !a.Pol)
+						case yt == ln && xt == "const:0":
+							nonEmpty = nonEmpty || (x.Op == token.LSS && a.Pol) || (x.Op == token.NEQ && a.Pol) || (x.Op == token.EQL && !a.Pol) || (x.Op == token.GEQ && !a.Pol)
+						case xt == ln && yt == "const:1":
+							nonEmpty = nonEmpty || (x.Op == token.GEQ && a.Pol) || (x.Op == token.LSS && !a.Pol)
+						}
+					case *ssa.Call:
+						if strings.HasSuffix(calleeName(x.Common()), "cryptobyte.String).Empty") && !a.Pol && len(x.Call.Args) == 1 {
+							// Empty() of the origin field itself (the local the read filled)
+							rc := main[3].Call.Common()
+							if len(rc.Args) > 1 && x.Call.Args[0] == rc.Args[1] {
+								nonEmpty = true
+							}
+						}
+					}
+				}
+				r.Check(nonEmpty, R1, name+": an empty origin field decodes to the empty list", p.InstrPos(split), "strings.Split is applied under len(field) > 0 only", "strings.Split is applied to a possibly empty origin field: Split(\"\", \",\") is [\"\"], so a challenge without origin info (OriginInfo nil, as the repository's own vector generator builds) decodes to a list holding one empty name")
+			}
 		}
 		for f, w := range want {
 			got := ""
